@@ -575,6 +575,44 @@ def readings_and_passes(ctx):
                          f"{show_val(want[k])[:110] if hasattr(want[k], 'shape') else str(want[k])[:110]}")
             else:
                 ctx.nt(("parent-passes", treatment, zname))
+    # how MANY sites a filled grid of statically known size has (len of its positions, a loop over them), for a grid that is not a
+    # constant (shifted by an argument), after the same passes
+    LEN_SRC = ("@move\ndef main(dx: float, sites: ilist.IList[tuple[int, int], Any]):\n    z = grid.from_positions([0.0, 1.0, 4.0], [0.0, 2.0])\n"
+               "    f = filled.vacate(grid.shift(z, dx, 0.0), sites)\n    g = filled.fill(grid.shift(z, dx, 1.0), sites)\n    p = grid.positions(f)\n    acc = 0.0\n    i = 0\n"
+               "    for i in range(len(p)):\n        acc = acc + p[i][0]\n    return (len(p), len(grid.positions(g)), acc, len(grid.positions(filled.get_parent(f))))\n")
+    for treatment in ("as compiled", "Fold", "AggressiveUnroll", "AggressiveUnroll to a fixpoint"):
+        try:
+            m = kernels.define(LEN_SRC)["main"]
+            if treatment == "Fold":
+                from bloqade.shuttle.passes.fold import Fold
+                Fold(prelude.move)(m)
+            elif treatment == "AggressiveUnroll":
+                AggressiveUnroll(prelude.move)(m)
+            elif treatment != "as compiled":
+                AggressiveUnroll(prelude.move).fixpoint(m)
+        except Exception as e:
+            ctx.evaluations += 1
+            ctx.fail({"kind": "kernel-rejected", "decorator": "move", "form": "number of sites", "treatment": treatment}, {"parent_passes": True, "treatment": treatment},
+                     f"{treatment}: a kernel counting the sites of filled grids cannot be processed: {type(e).__name__}: {str(e)[:140]}")
+            continue
+        for sites in ([(0, 0), (2, 1)], [(1, 0)], []):
+            f = FGc.vacate(lit.shift(0.5, 0.0), sites)
+            g = FGc.fill(lit.shift(0.5, 1.0), sites)
+            want = (len(f.positions), len(g.positions), sum(x for x, _ in f.positions), 6)
+            ctx.evaluations += 1
+            n += 1
+            rep = {"parent_passes": True, "treatment": treatment, "sites": sites}
+            try:
+                got = tuple(m(0.5, ilist.IList(sites)))
+            except Exception as e:
+                ctx.fail({"kind": "kernel-raises", "decorator": "move", "form": "number of sites", "treatment": treatment}, rep,
+                         f"{treatment}, sites {sites}: counting the sites of a filled grid raises {type(e).__name__}: {str(e)[:120]}")
+                continue
+            if got[:2] != want[:2] or got[3] != want[3] or abs(got[2] - want[2]) > 1e-9:
+                ctx.fail({"kind": "kernel-vs-method", "decorator": "move", "form": "number of sites", "treatment": treatment}, rep,
+                         f"{treatment}, sites {sites}: (sites after vacate, sites after fill, sum of x, sites of the parent) is {got} but the Python methods give {want}")
+            else:
+                ctx.nt(("site-count", treatment, len(sites)))
     ctx.count("readings of filled constant zones (3 kernel kinds) and get_parent chains after the fold passes: agree with the methods", n)
 
 
